@@ -52,7 +52,18 @@ const c16Type = "veriffake16"
 
 // how long the harness waits for something that must happen (a Serve goroutine starting, Wait returning once every
 // server has stopped) before it reports that it did not; generous because the machine may stall under load
-const c16Patience = 30 * time.Second
+const c16PatienceMax = 30 * time.Second
+
+var c16Expired int // how often the patience ran out in this run
+
+// c16Patience: generous on a healthy tree (where nothing ever waits that long); once it has run out three times the run
+// is a VIOLATION anyway and the remaining cases only get a short wait, so that the run still ends soon
+func c16Patience() time.Duration {
+	if c16Expired >= 3 {
+		return 50 * time.Millisecond
+	}
+	return c16PatienceMax
+}
 
 type c16Event struct {
 	seq  int
@@ -135,6 +146,28 @@ func c16Canon(evs []c16Event) []string {
 		}
 		rest := append([]c16Event(nil), out[last+1:]...)
 		out = append(append(out[:last+1:last+1], sv...), rest...)
+	}
+	// the order in which the servers of one instance are listened, served or stopped is incidental (for the http server
+	// type it is the iteration order of a map): sort every run of such events of one instance by server index
+	class := func(e c16Event) string {
+		switch e.code {
+		case "li", "in":
+			return "l"
+		case "sv", "st":
+			return e.code
+		}
+		return ""
+	}
+	for i := 0; i < len(out); {
+		j := i + 1
+		if c := class(out[i]); c != "" {
+			for j < len(out) && class(out[j]) == c && out[j].gen == out[i].gen {
+				j++
+			}
+			run := out[i:j]
+			sort.SliceStable(run, func(a, b int) bool { return run[a].idx < run[b].idx })
+		}
+		i = j
 	}
 	s := make([]string, len(out))
 	for i, e := range out {
@@ -460,7 +493,8 @@ func c16Eval(f []string) (string, []string) {
 			if lineageOfGenHas(lineageOfGen, s.gen) {
 				select {
 				case <-s.served:
-				case <-time.After(c16Patience):
+				case <-time.After(c16Patience()):
+					c16Expired++
 					c16rec.log("noserve", s.gen, s.idx)
 				}
 			}
@@ -496,7 +530,8 @@ func c16Eval(f []string) (string, []string) {
 				select {
 				case <-l.waiter:
 					returned = true
-				case <-time.After(c16Patience):
+				case <-time.After(c16Patience()):
+					c16Expired++
 				}
 			} else {
 				for i := 0; i < 3; i++ {
@@ -620,7 +655,7 @@ func c16Eval(f []string) (string, []string) {
 		if l.waiter != nil {
 			select {
 			case <-l.waiter:
-			case <-time.After(c16Patience):
+			case <-time.After(c16Patience()):
 			}
 		}
 	}
@@ -651,7 +686,7 @@ func c16Gen(g *hx.Gen) {
 	cfgs := []string{
 		"f1/-/", "f1,n2/-/", "f1,p2/-/", "/-/",
 		"f1/parse/", "f1/setup/", "f1/make/", "f1/first/", "f1/startup/", "f1,f2!/-/", "f1!/-/",
-		"f1/-/r", "n1,f2/-/",
+		"f1/-/r", "n1,f2/-/", "f1/-/s",
 	}
 	var alpha []string
 	for _, c := range cfgs {
